@@ -20,6 +20,7 @@
 //! `U <addr,addr,..> <base:size:name hex;..>`: model correspondence for the per-frame map of overlapping unloaded modules
 //!   (thread i has its instruction pointer at addr i and no loaded module: frames[0].unloaded_modules of print_json and the
 //!   `(unloaded name@0x..|0x..)` groups of the text report's frame 0 line).
+//! `B <regs> | <dump spec>`: model correspondence for the order of the register-derived entries of crash_info.possible_bit_flips.
 //! `E <certs> <modules>`: model correspondence for the evil-json certificate fold (cert_subject per module).
 //! A line `R <hex limits stream>` is the model correspondence case (names of the proc_limits array).
 //! `L <hex lsb> <hex status> <hex cpuinfo>`: model correspondence for the Linux key/value streams (lsb_release
@@ -297,6 +298,24 @@ fn run_limits_names(h: &str) -> String {
         .map(|a| a.iter().map(|e| format!("{}:{}:{}:{}", hex(e["name"].as_str().unwrap_or("").as_bytes()), lim(&e["soft"]), lim(&e["hard"]), hex(e["unit"].as_str().unwrap_or("?").as_bytes()))).collect())
         .unwrap_or_default();
     format!("R {}", names.join(","))
+}
+
+/// B <regs> | <dump spec>: an amd64 crash on an instruction whose memory operand names the registers <regs> (the model's input), every
+/// one of them a single bit away from null.  Answer: the source_register of crash_info.possible_bit_flips in array order, consecutive
+/// repetitions collapsed (the candidates of the crash address itself, which have no source register, are skipped).
+fn run_bitflip_sources(spec_line: &str) -> String {
+    let spec = parse_spec(spec_line.split_ascii_whitespace());
+    let dump = Minidump::read(build_dump(&spec)).expect("read");
+    let rend = exec_a(process_and_render(&dump, string_symbol_supplier(HashMap::new()), spec.opt, None));
+    let v: serde_json::Value = serde_json::from_slice(&rend.json).expect("json");
+    let mut seq: Vec<String> = Vec::new();
+    for b in v["crash_info"]["possible_bit_flips"].as_array().map(|a| a.as_slice()).unwrap_or(&[]) {
+        let Some(r) = b["source_register"].as_str().map(|x| x.to_string()) else { continue };
+        if seq.last() != Some(&r) {
+            seq.push(r);
+        }
+    }
+    format!("B {}", if seq.is_empty() { "none".to_string() } else { seq.join(",") })
 }
 
 /// U <addr,addr,..> <base:size:name hex;..>: amd64 dump without loaded modules, the listed unloaded modules, thread i with rip =
@@ -663,6 +682,9 @@ fn run(line: &str) -> String {
     if let Some(rest) = line.strip_prefix("L ") {
         let mut it = rest.split_ascii_whitespace();
         return run_linux(it.next().expect("lsb"), it.next().expect("status"), it.next().expect("cpuinfo"));
+    }
+    if let Some(rest) = line.strip_prefix("B ") {
+        return run_bitflip_sources(rest.split_once(" | ").expect("B regs | spec").1);
     }
     if let Some(rest) = line.strip_prefix("U ") {
         let mut it = rest.split_ascii_whitespace();
